@@ -386,6 +386,54 @@ def stop_scripts(tier, seed):
     return blocks
 
 
+EARLY_STOP_POSITIONS = [
+    "rnbqkbnr/pppppppp/8/8/8/8/PPPPPPPP/RNBQKBNR w KQkq - 0 1", "r3k2r/p1ppqpb1/bn2pnp1/3PN3/1p2P3/2N2Q1p/PPPBBPPP/R3K2R w KQkq - 0 1",
+    "8/8/8/4k3/8/8/4K3/8 w - - 0 1", "7k/8/8/8/8/8/6q1/K7 w - - 0 1", "k7/8/8/8/8/8/5PPP/6K1 b - - 0 1", "4k3/8/8/8/8/8/4P3/4K3 w - - 0 1",
+]
+
+
+def uci_early_stops(chk):
+    import uci
+    fens = EARLY_STOP_POSITIONS
+    legal = {}
+    r = run_blocks(SPECDRIVER, [["# p%d" % i, "spec " + f] for i, f in enumerate(fens)], nshards=1)
+    for i, f in enumerate(fens):
+        ls = r.get("p%d" % i, [])
+        if ls and ls[0].startswith("spec ok"):
+            legal[f] = [m for m in parse_kv(ls[0])[1].get("legal", "").split(",") if m]
+    kinds = [("go infinite", True), ("go movetime 1", False), ("go movetime 3", False), ("go wtime 40 btime 40 winc 0 binc 0", False), ("go depth 30", True)]
+    rounds = 2 if chk.tier == "quick" else 8
+    n = 0
+    nfail = 0
+    for f in fens:
+        if f not in legal:
+            continue
+        for (go, send_stop) in kinds:
+            for _ in range(rounds):
+                e = uci.Engine()
+                try:
+                    e.send("position fen " + f)
+                    e.send(go)
+                    if send_stop:
+                        e.send("stop")
+                    lines, ok = e.read_until(lambda l: l.startswith("bestmove"), 30.0)
+                    rc = e.quit()
+                finally:
+                    e.kill()
+                n += 1
+                best = next((l.split()[1] for l in lines if l.startswith("bestmove") and len(l.split()) > 1), None)
+                bad = None
+                if not ok:
+                    bad = "no bestmove after '%s'%s" % (go, " + stop" if send_stop else "")
+                elif legal[f] and best not in legal[f]:
+                    bad = "'%s'%s was answered with 'bestmove %s' although %d legal moves exist" % (go, " + stop at once" if send_stop else "", best, len(legal[f]))
+                if bad and nfail < 5:
+                    nfail += 1
+                    chk.violation(bad + " (%s)" % f, {"fen": f, "session": ["position fen " + f, go] + (["stop"] if send_stop else []), "answer": best, "output": lines[-6:],
+                                                       "kind": "spec-oracle failure on the implementation"})
+    return {"sessions": n, "positions": len(legal), "kinds": [k for k, _ in kinds]}
+
+
 def check_C07(chk):
     status, broken = common_front(chk)
     if not status.get("harness_release"):
@@ -448,9 +496,15 @@ def check_C07(chk):
             script = next((b[1:] for b in blocks if b[0][2:] == gid), [])
             chk.violation(bad + " (%s)" % fen, {"fen": fen, "stop_at_poll": N, "answer": ev["best"], "script": script,
                                                 "kind": "spec-oracle failure on the implementation"})
-    chk.cov["evaluations"] = stats["searches"]
+    # the same demand of the real binary, where a stop can arrive before the search thread has polled at all: go + stop at once,
+    # a movetime of a few milliseconds, clocks that leave a budget of 0 ms
+    ustats = uci_early_stops(chk) if status.get("engine") else {"sessions": 0}
+    stats["uci_early_stops"] = ustats
+    chk.cov["evaluations"] = stats["searches"] + ustats.get("sessions", 0)
     chk.cov["distinct_nontrivial"] = len(nontrivial)
-    chk.cov["rule"] = ("for each of %d positions (random legal prefixes from the corpus) a depth-limited search is stopped by the hook at poll index N "
+    chk.cov["rule"] = ("(b) %d sessions of the real binary in which the stop arrives at once (go + stop, go movetime 1..3, clocks with a budget of 0 ms) on positions with one, few and many legal moves: "
+                       "the answer must be a legal move (rules' list). (a) " % ustats.get("sessions", 0)) + (
+                       "for each of %d positions (random legal prefixes from the corpus) a depth-limited search is stopped by the hook at poll index N "
                        "(every index 0..39 on a fifth of the positions, a geometric sample up to 10000 elsewhere; fresh table, or a table kept warm across the "
                        "stops on a quarter of them). Oracle: no node entered after the stop, at most N+1 polls, the answer is a legal move whenever one exists. "
                        "Transcripts equal between real code and extracted model. Non-trivial: distinct (position, N) where the stop really hit.") % len(blocks)
@@ -519,6 +573,31 @@ def check_C08(chk):
     stats = {"searches": 0, "limit_below_cached": 0, "limit_above_cached": 0, "deepest_unlimited": 0, "root_hits": 0}
     nontrivial = set()
     nfail = 0
+    # the real binary's own search thread (its stack, its spawn): deep lines on bare kings, depth-limited and unlimited
+    if status.get("engine"):
+        import uci
+        for (f, go, stop_after) in [("8/8/8/4k3/8/8/4K3/8 w - - 0 1", "go depth 140", None), ("8/8/8/4k3/8/8/4K3/8 w - - 0 1", "go infinite", 3.0),
+                                    ("8/8/4k3/4p3/4P3/4K3/8/8 w - - 0 1", "go depth 200", None)]:
+            e = uci.Engine()
+            try:
+                e.send("position fen " + f)
+                e.send(go)
+                if stop_after:
+                    time.sleep(stop_after)
+                    e.send("stop")
+                lines, ok = e.read_until(lambda l: l.startswith("bestmove"), 240.0)
+                e.send("isready")
+                _, ready = e.read_until(lambda l: l == "readyok", 10.0)
+                rc = e.quit()
+            finally:
+                e.kill()
+            depths = [int(l.split()[2]) for l in lines if l.startswith("info depth ")]
+            stats["deepest_session_search"] = max(stats.get("deepest_session_search", 0), depths[-1] if depths else 0)
+            if (not ok or not ready or rc != 0) and nfail < 5:
+                nfail += 1
+                chk.violation("'%s' on %s did not end cleanly in the real binary (bestmove seen: %s, alive afterwards: %s, exit status %s, last depth %s): %s" % (
+                    go, f, ok, ready, rc, depths[-1] if depths else None, "; ".join(e.err[-2:])[:200]),
+                    {"fen": f, "session": ["position fen " + f, go] + (["stop"] if stop_after else []), "stderr": e.err[-5:], "kind": "crash of the implementation"})
     for blk in blocks:
         gid = blk[0][2:]
         a, b = impl.get(gid, []), implc.get(gid, [])
